@@ -15,28 +15,44 @@
 (*   pair    two requests, mixed servers / several key IDs / unsupported   *)
 (*           / unsigned, coarse time, full per-key fetcher behaviours      *)
 (*   batch   up to three requests, widest vocabulary (simulation)          *)
-(*   dberr   database failures                                             *)
+(*   dberr   database failures (and the empty batch)                       *)
+(*   twin    the same (server, key ID) twice in one batch with different   *)
+(*           timestamps / validity rules                                   *)
+(*   versions  one request per registered room version, judged with that   *)
+(*           version's own SignatureValidityCheck; which versions are      *)
+(*           strict comes from MatrixBase (the Matrix specification)       *)
 (***************************************************************************)
 EXTENDS KeyRing, Json, TLC
 
-CONSTANTS Family, Tier
+MB == INSTANCE MatrixBase
 
-VARIABLES gen,     \* "req" | "db" | "fstart" | "ffill" | "run"
+CONSTANTS Families,   \* the scenario families to enumerate in this run (a set)
+          Tier
+
+VARIABLES fam,     \* the family of this scenario (chosen first, never changes)
+          gen,     \* "req" | "db" | "fstart" | "ffill" | "run"
           todo,    \* wanted (server, key ID) pairs still to be given an entry
           nreq, nf
 
-allvars == <<vars, gen, todo, nreq, nf>>
+allvars == <<vars, fam, gen, todo, nreq, nf>>
 
 \* --------------------------------------------------------------- vocabulary
 TQuick == {-48, -24, 24, 192}
-TThorough == {-72, -48, -24, 24, 48, 192, 216}
+TThorough == {-72, -48, -24, 24, 48, 167, 169, 192, 216}   \* 167 / 169: one hour either side of the 7-day cap
 T == IF Tier = "quick" THEN TQuick ELSE TThorough
 
 Cur(k, v) == [key |-> k, vu |-> v, exp |-> NoTS]
 Exp(k, e) == [key |-> k, vu |-> NoTS, exp |-> e]
+Bare(k) == [key |-> k, vu |-> NoTS, exp |-> NoTS]           \* a row with valid_until_ts = 0 and expired_ts = 0
+Both(k, v, e) == [key |-> k, vu |-> v, exp |-> e]           \* a row carrying BOTH timestamps: expired_ts rules
+\* rows on which "expired_ts decides" and "valid_until_ts decides" disagree around the request timestamps
+Odd(g) == {Bare(g), Both(g, 24, -24), Both(g, -48, 24)}
+Epoch == NoTS                                               \* request timestamp 0 (realised as AtTS = 0)
 
 Sg(kid, by) == [kid |-> kid, alg |-> IF kid = "rsa" THEN "rsa" ELSE "ed25519", by |-> by]
-Rq(srv, sigs, ts, strict) == [srv |-> srv, form |-> "obj", sigs |-> sigs, ts |-> ts, strict |-> strict]
+Rq(srv, sigs, ts, strict) == [srv |-> srv, form |-> "obj", sigs |-> sigs, ts |-> ts, strict |-> strict, ver |-> ""]
+\* judged by room version v's own check: strict iff the Matrix specification says so for v
+RqV(srv, sigs, ts, v) == [srv |-> srv, form |-> "obj", sigs |-> sigs, ts |-> ts, strict |-> MB!StrictKeyValidity(v), ver |-> v]
 
 GoodKey(kid) == IF kid = "k2" THEN "K2" ELSE "K1"
 WrongKey(kid) == IF kid = "k2" THEN "K1" ELSE "K2"
@@ -51,49 +67,60 @@ PatternsSmall == { {Sg("k1", "K1")}, {Sg("k1", "G"), Sg("k2", "K2")}, {Sg("rsa",
 PatternsQ1 == { {Sg("k1", "K1")}, {Sg("k1", "G"), Sg("k2", "K2")}, {Sg("rsa", "G"), Sg("k1", "K1")}, {} }
 PatternsQ2 == { {Sg("k1", "K1")}, {Sg("k2", "K2")}, {Sg("rsa", "G")}, {} }
 
-NotJSON(srv) == [srv |-> srv, form |-> "notjson", sigs |-> {}, ts |-> -48, strict |-> TRUE]
+NotJSON(srv) == [srv |-> srv, form |-> "notjson", sigs |-> {}, ts |-> -48, strict |-> TRUE, ver |-> ""]
 
 ReqOpts(n) ==
-    CASE Family = "single" ->
-            {Rq("s1", {Sg("k1", by)}, ts, st) : by \in {"K1", "G"}, ts \in T, st \in BOOLEAN}
-      [] Family = "pair" ->
+    CASE fam = "single" ->
+            {Rq("s1", {Sg("k1", by)}, ts, st) : by \in {"K1", "G"},
+                                               ts \in (IF Tier = "quick" THEN T ELSE T \cup {Epoch}), st \in BOOLEAN}
+      [] fam = "twin" ->
+            {Rq("s1", {Sg("k1", "K1")}, ts, st) : ts \in TQuick, st \in BOOLEAN}
+      [] fam = "versions" ->
+            {RqV("s1", {Sg("k1", "K1")}, ts, v) : ts \in {Epoch, -24, 192}, v \in MB!AllVersions}
+      [] fam = "pair" ->
             IF Tier = "quick"
             THEN IF n = 1 THEN {Rq("s1", p, -48, TRUE) : p \in PatternsQ1} \cup {NotJSON("s1")}
                  ELSE {Rq(s, p, -48, TRUE) : s \in {"s1", "s2"}, p \in PatternsQ2}
             ELSE IF n = 1 THEN {Rq("s1", p, -48, TRUE) : p \in Patterns} \cup {NotJSON("s1")}
                  ELSE {Rq(s, p, -48, TRUE) : s \in {"s1", "s2"}, p \in PatternsSmall}
-      [] Family = "dberr" ->
+      [] fam = "dberr" ->
             {Rq(s, p, -48, TRUE) : s \in {"s1", "s2"}, p \in PatternsSmall}
       [] OTHER ->  \* batch
-            {Rq(s, p, ts, st) : s \in {"s1", "s2"}, p \in Patterns, ts \in {-48, 24, 192}, st \in BOOLEAN}
+            {Rq(s, p, ts, st) : s \in {"s1", "s2"}, p \in Patterns, ts \in {Epoch, -48, 24, 192}, st \in BOOLEAN}
             \cup {NotJSON("s1")}
 
-MaxReq == CASE Family = "single" -> 1 [] Family = "pair" -> 2
-            [] Family = "dberr" -> (IF Tier = "quick" THEN 1 ELSE 2) [] OTHER -> 3
-MinReq == CASE Family = "pair" -> 2 [] OTHER -> 1
-MaxF == CASE Family = "dberr" -> 1 [] OTHER -> 2
-DBModes == IF Family = "dberr" THEN {"fetcherr", "storeerr"} ELSE {"ok"}
+MaxReq == CASE fam = "single" -> 1 [] fam = "pair" -> 2 [] fam = "twin" -> 2 [] fam = "versions" -> 1
+            [] fam = "dberr" -> (IF Tier = "quick" THEN 1 ELSE 2) [] OTHER -> 3
+MinReq == CASE fam = "pair" -> 2 [] fam = "twin" -> 2 [] fam = "dberr" -> 0 [] OTHER -> 1
+MaxF == CASE fam \in {"dberr", "twin", "versions"} -> 1 [] OTHER -> 2
+DBModes == IF fam = "dberr" THEN {"fetcherr", "storeerr"} ELSE {"ok"}
 
 \* entries offered for a wanted pair <<srv, kid>>
 DBEntries(p) ==
     LET g == GoodKey(p[2])  w == WrongKey(p[2]) IN
-    CASE Family = "single" ->
-            {NoKey} \cup {Cur(k, v) : k \in {g, w}, v \in T} \cup {Exp(k, e) : k \in {g, w}, e \in T}
-      [] Family = "pair" ->
+    CASE fam = "single" ->
+            {NoKey} \cup {Cur(k, v) : k \in {g, w}, v \in T} \cup {Exp(k, e) : k \in {g, w}, e \in T} \cup Odd(g)
+      [] fam = "twin" ->
+            {NoKey} \cup {Cur(g, v) : v \in TQuick} \cup {Exp(g, e) : e \in TQuick} \cup Odd(g)
+      [] fam = "versions" ->
+            {Cur(g, -48), Cur(g, -24), Cur(g, 216), Bare(g)}    \* only rows on which strictness decides
+      [] fam = "pair" ->
             {NoKey, Cur(g, 24), Cur(g, -24)}
-      [] Family = "dberr" -> {NoKey, Cur(g, 24), Cur(g, -24)}
+      [] fam = "dberr" -> {NoKey, Cur(g, 24), Cur(g, -24)}
       [] OTHER ->
             {NoKey, Cur(g, 24), Cur(g, -24), Cur(g, -72), Cur(g, 216), Cur(w, 24), Cur(w, -24),
-             Exp(g, -24), Exp(g, -48), Exp(g, -72), Exp(w, 24)}
+             Exp(g, -24), Exp(g, -48), Exp(g, -72), Exp(w, 24)} \cup Odd(g)
 
 FEntries(j, p) ==
     LET g == GoodKey(p[2])  w == WrongKey(p[2]) IN
-    CASE Family = "single" ->
-            IF j = 1 THEN {NoKey} \cup {Cur(k, v) : k \in {g, w}, v \in T} \cup {Exp(k, e) : k \in {g, w}, e \in T}
-            ELSE {NoKey, Cur(g, 216), Cur(w, 216)}
-      [] Family = "pair" -> {NoKey, Cur(g, 24), Cur(w, 24)}
-      [] Family = "dberr" -> {NoKey, Cur(g, 24)}
-      [] OTHER -> {NoKey, Cur(g, 24), Cur(g, -24), Cur(g, 216), Cur(w, 24), Exp(g, -24), Exp(g, -72)}
+    CASE fam = "single" ->
+            IF j = 1 THEN {NoKey} \cup {Cur(k, v) : k \in {g, w}, v \in T} \cup {Exp(k, e) : k \in {g, w}, e \in T} \cup Odd(g)
+            ELSE IF Tier = "quick" THEN {NoKey, Cur(g, 216)} ELSE {NoKey, Cur(g, 216), Cur(w, 216)}
+      [] fam = "twin" -> {NoKey, Cur(g, 24), Cur(g, 216), Exp(g, -24), Bare(g)}
+      [] fam = "versions" -> {NoKey, Cur(g, 216)}
+      [] fam = "pair" -> {NoKey, Cur(g, 24), Cur(w, 24)}
+      [] fam = "dberr" -> {NoKey, Cur(g, 24)}
+      [] OTHER -> {NoKey, Cur(g, 24), Cur(g, -24), Cur(g, 216), Cur(w, 24), Exp(g, -24), Exp(g, -72), Bare(g), Both(g, 24, -24)}
 
 \* ------------------------------------------------------------ table helpers
 WantedPairs == UNION {{<<requests[i].srv, k>> : k \in SupportedIDs(requests[i])} : i \in DOMAIN requests}
@@ -107,15 +134,18 @@ ErrF == [mode |-> "error", tab |-> <<>>, all |-> FALSE]
 Shapes(j) ==
     LET fill(a, junk) == [fill |-> TRUE, f |-> [mode |-> "ok", tab |-> IF junk THEN Junk ELSE <<>>, all |-> a]]
         fixed(f) == [fill |-> FALSE, f |-> f]
-    IN  IF Family = "pair" /\ j = 2
-        THEN {fixed(ErrF), fixed([mode |-> "ok", tab |-> FullTab(GoodKey), all |-> FALSE]),
+    IN  IF fam = "pair" /\ j = 2
+        THEN {fixed(ErrF),
               fixed([mode |-> "ok", tab |-> FullTab(GoodKey), all |-> TRUE]),
               fixed([mode |-> "ok", tab |-> FullTab(WrongKey), all |-> TRUE])}
-        ELSE IF Family = "single" THEN {fixed(ErrF), fill(FALSE, FALSE)}
+             \cup (IF Tier = "quick" THEN {} ELSE {fixed([mode |-> "ok", tab |-> FullTab(GoodKey), all |-> FALSE])})
+        ELSE IF fam \in {"single", "twin", "versions"} THEN {fixed(ErrF), fill(FALSE, FALSE)}
+        ELSE IF fam = "pair" /\ Tier = "quick" THEN {fixed(ErrF), fill(FALSE, FALSE), fill(TRUE, TRUE)}
         ELSE {fixed(ErrF), fill(FALSE, FALSE), fill(TRUE, FALSE), fill(TRUE, TRUE)}
 
 \* --------------------------------------------------------------- generation
 GenInit ==
+    /\ fam \in Families
     /\ gen = "req" /\ todo = {}
     /\ nreq \in MinReq..MaxReq /\ nf \in 0..MaxF
     /\ requests = <<>> /\ db = <<>> /\ fetchers = <<>>
@@ -126,31 +156,31 @@ GenInit ==
 GenReq ==
     /\ gen = "req" /\ Len(requests) < nreq
     /\ \E r \in ReqOpts(Len(requests) + 1) : requests' = Append(requests, r)
-    /\ UNCHANGED <<db, dbmode, fetchers, now, ringvars, gen, todo, nreq, nf>>
+    /\ UNCHANGED <<db, dbmode, fetchers, now, ringvars, fam, gen, todo, nreq, nf>>
 
 GenReqDone ==
     /\ gen = "req" /\ Len(requests) = nreq
     /\ gen' = "db" /\ todo' = WantedPairs
-    /\ UNCHANGED <<vars, nreq, nf>>
+    /\ UNCHANGED <<vars, fam, nreq, nf>>
 
 GenDB ==
     /\ gen = "db" /\ todo # {}
     /\ LET p == CHOOSE q \in todo : TRUE IN
        /\ \E e \in DBEntries(p) : db' = Put(db, p, e)
        /\ todo' = todo \ {p}
-    /\ UNCHANGED <<requests, dbmode, fetchers, now, ringvars, gen, nreq, nf>>
+    /\ UNCHANGED <<requests, dbmode, fetchers, now, ringvars, fam, gen, nreq, nf>>
 
 GenDBDone ==
     /\ gen = "db" /\ todo = {}
     /\ gen' = "fstart"
-    /\ UNCHANGED <<vars, todo, nreq, nf>>
+    /\ UNCHANGED <<vars, fam, todo, nreq, nf>>
 
 GenFStart ==
     /\ gen = "fstart" /\ Len(fetchers) < nf
     /\ \E s \in Shapes(Len(fetchers) + 1) :
           /\ fetchers' = Append(fetchers, s.f)
           /\ IF s.fill THEN gen' = "ffill" /\ todo' = WantedPairs ELSE UNCHANGED <<gen, todo>>
-    /\ UNCHANGED <<requests, db, dbmode, now, ringvars, nreq, nf>>
+    /\ UNCHANGED <<requests, db, dbmode, now, ringvars, fam, nreq, nf>>
 
 GenFFill ==
     /\ gen = "ffill"
@@ -159,27 +189,27 @@ GenFFill ==
                 j == Len(fetchers) IN
             /\ \E e \in FEntries(j, p) : fetchers' = [fetchers EXCEPT ![j].tab = Put(@, p, e)]
             /\ todo' = todo \ {p} /\ UNCHANGED gen
-    /\ UNCHANGED <<requests, db, dbmode, now, ringvars, nreq, nf>>
+    /\ UNCHANGED <<requests, db, dbmode, now, ringvars, fam, nreq, nf>>
 
 GenFDone ==
     /\ gen = "fstart" /\ Len(fetchers) = nf
     /\ gen' = "run" /\ stage' = "prepare"
-    /\ UNCHANGED <<scenario, fi, results, pending, have, fetched, stored, toperr, calls, todo, nreq, nf>>
+    /\ UNCHANGED <<scenario, fi, results, pending, have, fetched, stored, toperr, calls, fam, todo, nreq, nf>>
 
-Run == gen = "run" /\ RingNext /\ UNCHANGED <<gen, todo, nreq, nf>>
+Run == gen = "run" /\ RingNext /\ UNCHANGED <<fam, gen, todo, nreq, nf>>
 
 Init == GenInit
 Next == GenReq \/ GenReqDone \/ GenDB \/ GenDBDone \/ GenFStart \/ GenFFill \/ GenFDone \/ Run
 Spec == Init /\ [][Next]_allvars
 
 \* exhaustive search: the history `calls` is hidden from the fingerprint
-View == <<requests, db, dbmode, fetchers, now, stage, fi, results, pending, have, fetched, stored, toperr, gen, todo, nreq, nf>>
+View == <<requests, db, dbmode, fetchers, now, stage, fi, results, pending, have, fetched, stored, toperr, fam, gen, todo, nreq, nf>>
 
 \* ----------------------------------------------------------------- emission
 MustClass(i) == IF MustOK(i) THEN "ok" ELSE IF MayOK(i) THEN "free" ELSE "fail"
 
 Emit == (gen = "run" /\ Done) =>
-    PrintT(ToJson([fam |-> Family,
+    PrintT(ToJson([fam |-> fam,
                    requests |-> requests, db |-> db, dbmode |-> dbmode, fetchers |-> fetchers,
                    results |-> results, toperr |-> toperr, calls |-> calls,
                    fetched |-> fetched, have |-> have,
